@@ -1,9 +1,11 @@
 import SlVerif.Model.Basic
 import SlVerif.Model.Gf128
+import SlVerif.Model.Gf128Bytes
 namespace SlVerif.Drv.Gf
 open SlVerif
 
-/-- `gf mul <a:16 bytes hex LE> <b>`  →  `<model> <spec>` (16-byte LE hex each) -/
+/-- `gf mul <a:16 bytes hex LE> <b>`  →  `<model> <spec> <bytes-model>` (16-byte LE hex each):
+    integer-level `Gf.mul`, bit-serial `Gf.specMul`, literal byte-array `Gf.mulBytes`. -/
 def handle : List String → Option String
   | ["mul", a, b] => do
       let a ← hexToBytes? a
@@ -11,7 +13,8 @@ def handle : List String → Option String
       if a.length ≠ 16 ∨ b.length ≠ 16 then none else
       let x := leToNat a
       let y := leToNat b
-      some (bytesToHex (natToLe 16 (Gf.mul x y)) ++ " " ++ bytesToHex (natToLe 16 (Gf.specMul x y)))
+      some (bytesToHex (natToLe 16 (Gf.mul x y)) ++ " " ++ bytesToHex (natToLe 16 (Gf.specMul x y))
+        ++ " " ++ bytesToHex (Gf.mulBytes a b))
   | _ => none
 
 end SlVerif.Drv.Gf
